@@ -732,8 +732,12 @@ func (c *converter) Copy(destination string, source string, valueUsed bool, glob
 	c.sliceCopyHelperRequired = true
 	c.callFunc(sliceCopyHelper, []string{}, c.varName(destination, global), source)
 
+	// Keep the copied length in a helper variable of its own (_len is overwritten by the next len/copy of the same statement).
+	helper := c.nextHelperVar()
 	c.callFunc(sliceLenGetHelper, []string{}, c.varEvaluationString(destination, global))
-	return c.varEvaluationString("_len", true), nil
+	c.VarAssignment(helper, c.varEvaluationString("_len", true), false)
+
+	return c.VarEvaluation(helper, valueUsed, false)
 }
 
 func (c *converter) Exists(path string, valueUsed bool) (string, error) {
